@@ -77,8 +77,33 @@ func (g *c15Gen) attr(depth int) scen.Arg {
 	case c < 11:
 		return scen.Arg{K: "dur", Key: "d" + k, I: int64(g.r.Range(1, 100000))}
 	default:
+		if g.r.Bool() {
+			// a time with a full nanosecond part, in some zone: "all its attributes" includes its exact value
+			ns := int64(946684800+g.r.Intn(900000000))*1e9 + int64(g.r.Intn(1e9))
+			if g.r.Chance(1, 4) {
+				ns -= ns % 1e6 // whole milliseconds
+			}
+			return scen.Arg{K: "time", Key: "t" + k, I: ns, S: scen.Pick(g.r, []string{"UTC", "+05:00", "-03:30"})}
+		}
 		return scen.Arg{K: "f", Key: "f" + k, F: float64(g.r.Range(1, 1000)) / 8}
 	}
+}
+
+// c15Times lists the time-valued attributes of an argument list with their (dotted) keys.
+func c15Times(as []scen.Arg, prefix string) (out []scen.Arg) {
+	for i := range as {
+		a := as[i]
+		if prefix != "" {
+			a.Key = prefix + "." + a.Key
+		}
+		switch a.K {
+		case "time":
+			out = append(out, a)
+		case "group":
+			out = append(out, c15Times(a.Items, a.Key)...)
+		}
+	}
+	return
 }
 
 func (g *c15Gen) attrs(n int) []scen.Arg {
@@ -286,6 +311,10 @@ func (p *C15) WellFormed(sc *scen.Scenario) bool {
 					return false
 				}
 			case "b", "dur", "f":
+			case "time":
+				if a.S == "" {
+					return false
+				}
 			default:
 				return false
 			}
@@ -482,6 +511,25 @@ func (p *C15) Check(sc *scen.Scenario, run *orch.Run, env *orch.Env) []orch.Viol
 					break
 				} else if k != wk {
 					add("C15.attrs", how+" key "+derived, "%s record prints value %d under key %q, expected %q", how, w.Val, k, wk)
+					break
+				}
+			}
+			for _, ta := range c15Times(args, prefix) {
+				// the printed value, if it reads as an RFC 3339 time, must be the attribute's instant
+				kk := ta.Key
+				if format == fmtJSON {
+					kk = leafKey(kk)
+				}
+				m := regexp.MustCompile(`(?:^|[ ,{"])` + regexp.QuoteMeta(kk) + `"?[=:]"?([0-9T:.+\-Z]+)`).FindStringSubmatch(text)
+				if m == nil {
+					continue
+				}
+				got, err := time.Parse(time.RFC3339Nano, m[1])
+				if err != nil {
+					continue // another rendering of times: its exactness is C04/C05's business
+				}
+				if want := time.Unix(0, ta.I); !got.Equal(want) {
+					add("C15.attrs", how+" time-value "+derived, "%s record prints time attribute %s as %s, the attribute's instant is %s", how, ta.Key, m[1], want.In(c16Zone(ta.S)).Format(time.RFC3339Nano))
 					break
 				}
 			}
